@@ -61,8 +61,9 @@ def sec_block_data(targets, context_id, params, results, source='dtn://src/'):
 class StubContext(object):
     ''' Security context with harness-decided outcomes. '''
 
-    def __init__(self, outcomes):
+    def __init__(self, outcomes, accept=False):
         self.outcomes = outcomes     # block number -> ('ok',) | ('code', v) | ('raise',)
+        self.accept = accept
         self.calls = []
 
     def load_config(self, config):
@@ -82,6 +83,9 @@ class StubContext(object):
             raise RuntimeError('verification blew up (model)')
         if o[0] == 'code':
             return o[1]
+        if self.accept:
+            # an accepting context removes the security block it has verified (as the COSE context does)
+            ctr.remove_block(blk)
         return None
 
     def verify_bib(self, ctr, bib):
@@ -119,7 +123,7 @@ def harness(case, tier):
                 blocks.append(dict(type=kind, num=num, flags=0, crc_type=0,
                                    data=sec_block_data([1], 3, None, [[(1, b'\x00')]])))
                 num += 1
-        w.agent._app['bpsec']._contexts[3] = StubContext(outcomes)
+        w.agent._app['bpsec']._contexts[3] = StubContext(outcomes, accept=bool(case.get('accept')))
     else:
         kind = 11 if case['blk'] == 'bib' else 12
         m = case['malform']
